@@ -1029,6 +1029,12 @@ func (q *qgen) havingExpr(outs []string, depth int) string {
 			// blank nodes carry random UUIDs as IDs: how they compare with other strings is not defined
 			op = "="
 		}
+		if !q.eqOnly && r.chance(1, 14) {
+			// the constant first: the grammar derives it, the evaluator builder refuses it; an implementation that accepts
+			// it has to read `c < ?b` as `?b > c` (the reference does)
+			q.hist["having-constant-first"]++
+			return fmt.Sprintf(`"%d"^^type:int64 %s %s`, []int{-2, -1, 0, 1, 2, 10}[r.intn(6)], op, b)
+		}
 		switch r.intn(9) {
 		case 0:
 			return fmt.Sprintf("%s %s %s", b, op, outs[r.intn(len(outs))])
